@@ -8,7 +8,7 @@
 From Coq Require Import List Arith NArith ZArith Bool String Ascii.
 Import ListNotations.
 Require Import PV.Stack.Model PV.Comb.PState PV.Comb.Bytes PV.Comb.Prog PV.Comb.Exec PV.Peg.Ast PV.Peg.VmCompile
-               PV.Gen.GenCompile PV.Gen.ClassH PV.Gen.Rel PV.Gen.Equiv.
+               PV.Gen.GenCompile PV.Gen.ClassH PV.Gen.Rel PV.Gen.Equiv PV.Gen.EquivRev.
 Local Open Scope string_scope.
 
 (* for every feature configuration cfg (memchr / the C03 fix / the C12 fix), either value of
@@ -29,16 +29,17 @@ Proof.
   specialize (H Hv). split; [now apply rrel_obs|now apply rrel_outcome].
 Qed.
 
-(* whenever the generated parser returns, so does the VM *)
+(* the generated parser returns exactly when the VM returns (no call limit: a limit is counted differently by the two) *)
 Definition C02_termination_statement : Prop :=
   forall (cfg : config) (extras : bool) (G : ogrammar) (U : utable), in_H G extras = true ->
-  forall (r : name) (input : list byte) (detail : bool) (f1 : nat),
-    exec cfg (gen_env G U) f1 (gen_start G U r) (init input None detail) <> ROutOfFuel ->
-    exists f2, exec cfg (vm_env G (ulookup U)) f2 (vm_start G (ulookup U) r) (init input None detail) <> ROutOfFuel.
-Theorem C02_vm_terminates_when_generated_does : C02_termination_statement.
+  forall (r : name) (input : list byte) (detail : bool),
+    (exists f1, exec cfg (gen_env G U) f1 (gen_start G U r) (init input None detail) <> ROutOfFuel) <->
+    (exists f2, exec cfg (vm_env G (ulookup U)) f2 (vm_start G (ulookup U) r) (init input None detail) <> ROutOfFuel).
+Theorem C02_termination_equivalent : C02_termination_statement.
 Proof.
-  intros cfg extras G U HH r input detail f1 Hg.
-  exact (proj1 (gen_vm_agree cfg G U extras HH r input detail f1 0 Hg)).
+  intros cfg extras G U HH r input detail. split.
+  - intros [f1 Hg]. exact (proj1 (gen_vm_agree cfg G U extras HH r input detail f1 0 Hg)).
+  - intros [f2 Hv]. exact (vm_gen_agree cfg G U extras HH r input detail f2 Hv).
 Qed.
 
 (* ---------- outside H the statement is false: one witness per excluded class ---------- *)
@@ -117,5 +118,5 @@ Example C02_example_in_H :
 Proof. vm_compute. repeat split; reflexivity. Qed.
 
 Print Assumptions C02_generated_eq_vm.
-Print Assumptions C02_vm_terminates_when_generated_does.
+Print Assumptions C02_termination_equivalent.
 Print Assumptions C02_unrestricted_refuted.
